@@ -22,6 +22,12 @@ var plainNames = []string{"build", "test", "default", "lint", "docs", "gen", "fm
 var cmdPool = []string{"echo a", "true", "echo b c", "test -f nofile", "echo 'x'"}
 var strPool = []string{"a", "text", "", "x y", "1", "yes", "no", "on", "true", "~", "été", "a\tb"}
 var badOsPool = []string{"bogus", "", "linux/bogus", "a/b/c", "amd64/amd64"}
+
+// strings handed to execext.ExpandLiteral / ExpandFields (task dir, include location and dir,
+// dotenv paths, globs): shell comments, blanks only, parameter and tilde expansion, quotes, backslashes
+var hostilePaths = []string{"#build", "#", "\t", "\n", " \t ", "\t#x", "# c", "$HOME", "$X", "$X/sub", "~", "~/x", "~nouser", "'a", "\"a", "a'b'c",
+	"a\\", "\\", "a b", "a&b", "(x)", "${X", "${X}", "${X:-sub}", "$(echo)", "`x`", "a;b", "a|b", "a>b", "*", "{a,b}", "sub", ".", "$", "$$", "!", "a#b", "\\#x"}
+
 var osPool = []string{"linux", "windows", "darwin", "linux/amd64", "amd64", "windows/arm64", "linux/386", "linux", "windows", "darwin/arm64", "freebsd", "arm64", "linux", "windows/amd64"}
 var locPool = []string{
 	"inc1.yml", "inc2.yml", "missing.yml", "", "Taskfile.yml",
@@ -160,6 +166,10 @@ func (g *gen) platforms() *Y {
 func (g *gen) glob() *Y {
 	if g.chance(0.2) {
 		return g.d(Map(P("exclude", g.str())))
+	}
+	if g.chance(0.12) {
+		g.count("hostile:glob")
+		return g.d(Str(g.pick(hostilePaths)))
 	}
 	return g.d(Str(g.pick([]string{"*.go", "src/**/*.txt", "none.txt", ""})))
 }
@@ -327,12 +337,25 @@ func (g *gen) taskNode(later []string) *Y {
 	add(0.15, "generates", func() *Y { return g.list(1+g.r.Intn(2), g.glob) })
 	add(0.1, "status", func() *Y { return g.list(1, func() *Y { return g.d(Str(g.pick([]string{"true", "false"}))) }) })
 	add(0.15, "preconditions", func() *Y { return g.list(1+g.r.Intn(2), g.precond) })
-	add(0.1, "dir", func() *Y { return g.d(Str(g.pick([]string{"sub", ".", ""}))) })
+	add(0.15, "dir", func() *Y {
+		if g.chance(0.4) {
+			g.count("hostile:dir")
+			return g.d(Str(g.pick(hostilePaths)))
+		}
+		return g.d(Str(g.pick([]string{"sub", ".", ""})))
+	})
 	add(0.1, "set", g.strlist)
 	add(0.05, "shopt", g.strlist)
 	add(0.3, "vars", g.vars)
 	add(0.15, "env", g.vars)
-	add(0.05, "dotenv", func() *Y { return g.list(1, func() *Y { return g.d(Str(".env")) }) })
+	add(0.05, "dotenv", func() *Y {
+		return g.list(1, func() *Y {
+			if g.chance(0.4) {
+				return g.d(Str(g.pick(hostilePaths)))
+			}
+			return g.d(Str(".env"))
+		})
+	})
 	add(0.15, "silent", g.boolean)
 	add(0.05, "interactive", g.boolean)
 	add(0.1, "internal", g.boolean)
@@ -388,6 +411,10 @@ func isPlain(s string) bool {
 
 func (g *gen) include() *Y {
 	loc := g.pick(locPool)
+	if g.chance(0.15) {
+		g.count("hostile:include-location")
+		loc = g.pick(hostilePaths)
+	}
 	if g.chance(0.5) {
 		return g.d(Str(loc))
 	}
@@ -402,7 +429,11 @@ func (g *gen) include() *Y {
 		kvs = append(kvs, P("flatten", g.boolean()))
 	}
 	if g.chance(0.2) {
-		kvs = append(kvs, P("dir", g.d(Str("sub"))))
+		if g.chance(0.4) {
+			kvs = append(kvs, P("dir", g.d(Str(g.pick(hostilePaths)))))
+		} else {
+			kvs = append(kvs, P("dir", g.d(Str("sub"))))
+		}
 	}
 	if g.chance(0.2) {
 		kvs = append(kvs, P("aliases", g.strlist()))
@@ -610,7 +641,7 @@ func seqElemPaths(y *Y, prefix []int, out *[][]int) {
 }
 
 // includeShapes: how the mutated / random file is reached from the root.
-var includeShapes = []string{"namespaced", "flatten", "depth2", "depth2-flatten"}
+var includeShapes = []string{"namespaced", "flatten", "depth2", "depth2-flatten", "optional", "optional-flatten"}
 
 // includeTrees puts [inc] behind a root Taskfile: directly (namespaced or flattened) or
 // through an intermediate file (depth 2), so that Tasks.Merge deep-copies its tasks once or twice.
@@ -623,6 +654,9 @@ func includeTrees(shape string, inc *Y) map[string]*Y {
 		return Map(P(ns, Str(file)))
 	}
 	switch shape {
+	case "optional", "optional-flatten":
+		o := Map(P("taskfile", Str("inc1.yml")), P("optional", Bool(true)), P("flatten", Bool(shape == "optional-flatten")), P("excludes", Seq(Str("short"))))
+		return map[string]*Y{"Taskfile.yml": Map(P("version", Str("3")), P("includes", Map(P("a", o))), rootTask), "inc1.yml": inc}
 	case "namespaced":
 		return map[string]*Y{"Taskfile.yml": Map(P("version", Str("3")), P("includes", incl("a", "inc1.yml", false)), rootTask), "inc1.yml": inc}
 	case "flatten":
@@ -760,4 +794,40 @@ func optionTrees(flatten bool, excludes []string, aliases bool, internal bool, d
 		"Taskfile.yml": Map(P("version", Str("3")), P("includes", Map(P("m", Str("mid.yml")))), P("tasks", Map(rootTasks...))),
 		"mid.yml":      Map(P("version", Str("3")), P("includes", Map(P("a", Map(opts...)))), P("tasks", Map(P("default", Str("echo mid default"))))),
 		"inc1.yml":     inc}
+}
+
+// optionalIncludeRoot: a root whose only include is optional and carries the given extra options.
+func optionalIncludeRoot(file string, extra ...KV) *Y {
+	opts := append([]KV{P("taskfile", Str(file)), P("optional", Bool(true))}, extra...)
+	return Map(P("version", Str("3")), P("includes", Map(P("extra", Map(opts...)))), P("tasks", Map(P("root", Str("echo root")))))
+}
+
+// malformedIncluded: included Taskfiles that exist but cannot be used, as node trees ...
+func malformedTrees() map[string]*Y {
+	return map[string]*Y{
+		"tasks-42":      Map(P("version", Str("3")), P("tasks", Int(42))),
+		"no-version":    Map(P("tasks", Map(P("t", Str("echo t"))))),
+		"tasks-seq":     Map(P("version", Str("3")), P("tasks", Seq(Str("a")))),
+		"vars-scalar":   Map(P("version", Str("3")), P("vars", Int(5)), P("tasks", Map(P("t", Str("echo t"))))),
+		"cmds-map":      Map(P("version", Str("3")), P("tasks", Map(P("t", Map(P("cmds", Map(P("a", Str("b"))))))))),
+		"seq-doc":       Seq(Str("a"), Str("b")),
+		"bad-version":   Map(P("version", Str("three")), P("tasks", Map(P("t", Str("echo t"))))),
+		"null-doc":      Null(),
+		"dotenv":        Map(P("version", Str("3")), P("dotenv", Seq(Str(".env"))), P("tasks", Map(P("t", Str("echo t"))))),
+		"old-version":   Map(P("version", Str("2")), P("tasks", Map(P("t", Str("echo t"))))),
+		"missing-inner": Map(P("version", Str("3")), P("includes", Map(P("x", Str("nosuch.yml")))), P("tasks", Map(P("t", Str("echo t"))))),
+	}
+}
+
+// ... and as bytes no tree stands for
+func malformedBytes() map[string]string {
+	return map[string]string{
+		"empty":          "",
+		"syntax-error":   "version: \"3\ntasks: {t: [echo\n",
+		"only-comment":   "# nothing here\n",
+		"tab":            "\t",
+		"binary":         "\x00\x01\xff\xfe",
+		"cr-decode-err":  "version: \"3\"\rtasks:\r  t:\r    cmds: {a: b}\r",
+		"unclosed-quote": "version: '3\n",
+	}
 }
